@@ -180,3 +180,98 @@ def validate_fs_traces(results, specs, chunk=400):
             flush()
     flush()
     return bad, kmm, n_tr, n_ev, states
+
+
+# ------------------------------------------------------------------------------ raw projection
+
+def blank_raw(ev, case):
+    return dict(ev=ev, case=case, op="", nr="", dfd=-1, dclass="", d2class="", path="", path2="", flags=0, resolve=0, ret=0,
+                fd=-1, newfd=-1, cmd=0, intree=False, lent=[], opened=[], closed=[], changed=[], retfd=-1, wpid=0, traced=False)
+
+
+def project_raw(res, case_spec):
+    """pv result -> TraceDiscipline events (begin / sys* / end per library call)"""
+    cid = str(res.get("id"))
+    calls = case_spec.get("calls", [])
+    traced = bool(case_spec.get("trace"))
+    results = {}
+    for o in res.get("out", []):
+        for i, r in enumerate(o.get("results") or []):
+            if r is not None and not r.get("skip"):
+                results[i] = r
+    out = []
+    per_call = {}
+    for e in res.get("events", []):
+        if e.get("ev") == "sys" and "call" in e:
+            per_call.setdefault(e["call"], []).append(e)
+    for j, c in enumerate(calls):
+        r = results.get(j)
+        if r is None or c.get("op") == "kopen":
+            continue
+        b = blank_raw("begin", cid)
+        b["op"] = c.get("op", "")
+        b["lent"] = [x for x in r.get("lent", []) if x is not None and x >= 0]
+        out.append(b)
+        for e in per_call.get(j, []):
+            s = blank_raw("sys", cid)
+            s["op"] = c.get("op", "")
+            s["nr"] = e["nr"]
+            if "dfd" in e:
+                s["dfd"] = e["dfd"]
+                s["dclass"] = e.get("dfd_class", "")
+            elif "fd" in e:
+                s["fd"] = e["fd"] if isinstance(e["fd"], int) else -1
+                s["dclass"] = "fd"
+                fdcls = e.get("fd_class", "")
+            s["d2class"] = e.get("dfd2_class", "")
+            s["path"] = e.get("path", "") or ""
+            s["path2"] = e.get("path2", "") or ""
+            if s["path"] == "<NULL>":
+                s["path"] = ""
+            fl = e.get("flags", 0)
+            s["flags"] = fl if isinstance(fl, int) and fl >= 0 else 0
+            s["resolve"] = e.get("resolve", 0)
+            s["ret"] = e.get("ret", 0)
+            s["newfd"] = e.get("newfd", -1)
+            s["cmd"] = e.get("cmd", 0) if isinstance(e.get("cmd", 0), int) else 0
+            s["intree"] = bool(e.get("rel")) and "dfd" in e and e.get("dfd_class") not in ("tree", "proc")
+            if "injected" in e:
+                s["ret"] = -int(e["injected"])
+            out.append(s)
+        en = blank_raw("end", cid)
+        en["op"] = c.get("op", "")
+        en["traced"] = traced
+        en["retfd"] = r.get("fd", -1) if r.get("ok") and isinstance(r.get("fd"), int) else -1
+        en["opened"] = [[x["fd"], bool(x.get("cloexec")), bool(x.get("procroot"))] for x in r.get("fds_opened", [])]
+        en["closed"] = [x["fd"] for x in r.get("fds_closed", [])]
+        en["changed"] = [x["fd"] for x in r.get("fds_changed", [])]
+        en["wpid"] = r.get("wpid", 0)
+        out.append(en)
+    return out
+
+
+def validate_raw_traces(results, specs, chunk=300):
+    bad, n_tr, n_ev, states = [], 0, 0, 0
+    batch = []
+
+    def flush():
+        nonlocal batch, bad, n_ev, states
+        if not batch:
+            return
+        r = run_trace_tlc("TraceDiscipline.tla", "TraceFS.cfg", batch)
+        if not r["accepted"] or r["report"] is None:
+            raise ToolError("discipline trace validation did not consume the trace: %s\n%s" % (r["consumed"], r["tlc"]["out"][-2500:]))
+        bad += r["report"]["bad"]
+        n_ev += len(batch)
+        states += r["tlc"]["distinct"]
+        batch = []
+
+    for k, (res, spec) in enumerate(zip(results, specs)):
+        if res.get("error"):
+            continue
+        batch += project_raw(res, spec)
+        n_tr += 1
+        if len(batch) > 20000:
+            flush()
+    flush()
+    return bad, n_tr, n_ev, states
